@@ -212,6 +212,33 @@ def subset_cases(ctx, cids, encs, count):
         yield case(cid, enc, rng.random() < 0.5, msg, 'seeded_subset')
 
 
+def twin_cases(ctx, cids, encs):
+    """
+    Two messages with exactly the same keys and very different value sizes, encoded one after the other under the same
+    configuration object: what the first one needed (how many carriers, which elements) must not be remembered for the
+    second.  Both orders; the second message is the one that is judged.
+    """
+    i = 0
+    for cid in cids:
+        cfg = cfg_of(cid)
+        if len(ref.carriers_of(cfg)) < 2:
+            continue
+        plain = [b for b in gen.data_bits(cfg) if cfg[str(b)]['field_type'] == 'LLLVAR' and not cfg[str(b)].get('field_processor')
+                 and gen.is_text(cfg[str(b)])][:2]
+        for enc in encs[:3]:
+            small = {'MTI': '1240', 'PDS0005': 'abc', 'PDS0010': 'de', 'PDS0148': 'f'}
+            big = {'MTI': '1240', 'PDS0005': 'A' * 600, 'PDS0010': 'B' * 610, 'PDS0148': 'C' * 300}
+            for b in plain:
+                small['DE%d' % b] = 'xy'
+                big['DE%d' % b] = 'Z' * 900
+            for first, second in ((small, big), (big, small)):
+                i += 1
+                if ctx.mine(i):
+                    c = case(cid, enc, bool(i % 2), second, 'same_keys_other_sizes')
+                    c['first_msg'] = gen.jsonable(first)
+                    yield c
+
+
 EDITS = ('drop_first_carrier', 'add_lower_carrier', 'resize_fixed', 'llvar_to_lllvar')
 
 
@@ -291,6 +318,10 @@ def materialise_cfg(ctx, c, dumps):
         ctx.call(dumps, dict(first), encoding=c['enc'], iso_config=cfg, hex_bitmap=c['hex'], budget=400000)
         apply_edit(cfg, tuple(c['edit']))
         ctx.count('configurations edited in place between two calls: ' + c['edit'][0])
+    if c.get('class') == 'same_keys_other_sizes':
+        first = gen.unjsonable(c['first_msg'])
+        ctx.call(dumps, dict(first), encoding=c['enc'], iso_config=cfg, hex_bitmap=c['hex'], budget=400000)
+        ctx.count('messages encoded right after one with the same keys and other sizes')
     return cfg
 
 
